@@ -425,8 +425,23 @@ fn partial_cut_containers(ctx: &mut Ctx) {
     let new_len = |n: usize| -> Vec<u8> {
         if n < 192 { vec![n as u8] } else if n < 8384 { let m = n - 192; vec![(m >> 8) as u8 + 192, m as u8] } else { let mut v = vec![255]; v.extend_from_slice(&(n as u32).to_be_bytes()); v }
     };
+    // (250..=262 + a padding packet with a two-octet length: the padding's HEADER straddles an AEAD
+    //  chunk edge, so the reader below fails in the middle of a header of the inner packet stream)
+    let mut shapes: Vec<(usize, usize)> = Vec::new();
     for lit_total in [64usize, 512, 576, 1024] {
         for pad_len in [0usize, 100, 1000] {
+            shapes.push((lit_total, pad_len));
+        }
+    }
+    for lit_total in 250usize..=262 {
+        shapes.push((lit_total, 400));
+    }
+    for lit_total in [318usize, 319, 320, 321, 510, 511, 513] {
+        shapes.push((lit_total, 9000));
+    }
+    {
+        for (lit_total, pad_len) in shapes {
+            let straddle = pad_len == 400 || pad_len == 9000;
             let data_len = lit_total - 1 - new_len(lit_total - 3).len().max(1) - 6;
             let mut lit = vec![b'b', 0, 0, 0, 0, 0];
             lit.extend(std::iter::repeat(b'x').take(data_len));
@@ -446,8 +461,12 @@ fn partial_cut_containers(ctx: &mut Ctx) {
             body.extend_from_slice(pkt.data());
             let mut cuts: Vec<usize> = (1..=(body.len() - 36) / 80).map(|k| 36 + k * 80).collect();
             cuts.extend([body.len() - 16, body.len() - 1, body.len()]);
-            if !ctx.thorough() {
+            if !ctx.thorough() && !straddle {
                 cuts = cuts.into_iter().step_by(2).collect();
+            }
+            if straddle {
+                // exactly behind a partial part (the next length octet is missing)
+                cuts = vec![512, 512 + 256, 1024, 512 + 64, body.len() - 1];
             }
             for cut in cuts {
                 if cut < 512 || cut > body.len() {
